@@ -402,3 +402,513 @@ Proof.
   - brk H; injection H as <-; same G.
   - brk H; injection H as <-; same G.
 Qed.
+
+(* ---------- flags: listener, shutdown flag, serve's result ---------- *)
+Definition sd_good (s : state) : bool :=
+  match sd s with SdIdle => false | SdReturned ENil => true | SdReturned _ => false | _ => negb (sd_err s) end.
+Definition sd_ran (s : state) : bool :=
+  match sd s with SdIdle => false | SdReturned EPanic => false | _ => true end.
+Definition sp_needs_cb (p : spc) : bool := match p with SAccepted _ | SRejected _ => true | _ => false end.
+
+Record finv (k : cfg) (s : state) : Prop := {
+  f_ret : returned (sp s) = true -> lis_open s = false;
+  f_shut : sd s <> SdIdle -> shut s = true;
+  f_good : sd_good s = true -> forall e, sp s = SReturned e -> e = EClosed;
+  f_ran : sd_ran s = true -> lis_open s = false;
+  f_lis : lis_open s = false -> shut s = true \/ cancelled s = true \/ returned (sp s) = true;
+  f_cb : sp_needs_cb (sp s) = true -> on_accept k = true
+}.
+
+Ltac ffin := constructor; unfold sd_good, sd_ran in *; cbn in *; intros;
+  repeat match goal with Hs : sp _ = SReturned _ |- _ => rewrite Hs in *; clear Hs end; cbn in *;
+  repeat match goal with Hs : sd ?s0 = _, Hx : context [match sd ?s0 with _ => _ end] |- _ => rewrite Hs in Hx end; cbn in *;
+  repeat match goal with
+         | H : ?a = ?a -> _ |- _ => specialize (H eq_refl)
+         | H : _ <> _ -> _ |- _ => specialize (H ltac:(discriminate))
+         end;
+  try congruence; try discriminate; auto;
+  try (match goal with s : state |- _ => destruct (lis_open s); cbn in *; congruence end);
+  try (intuition (try congruence; try discriminate; auto); fail).
+
+Lemma finv_step v k s l s' : finv k s -> step v k s l = Some s' -> finv k s'.
+Proof.
+  intros [F1 F2 F3 F4 F5 F6] H. unfold sd_good, sd_ran in *. unfold step in H. destruct (crashed s) eqn:Hc; [discriminate|].
+  destruct l.
+  - brk H; injection H as <-; ffin.
+  - brk H; injection H as <-; ffin.
+  - destruct (sp s) eqn:Esp; try discriminate.
+    destruct (lis_open s && Nat.eqb c (length (conns s))) eqn:Heqb; try discriminate. injection H as <-.
+    apply andb_prop in Heqb as [Hlo _]. destruct (on_accept k) eqn:Eoa; ffin.
+  - destruct (sp s) eqn:Esp; try discriminate. destruct (get s c) as [x|] eqn:Hg; try discriminate.
+    destruct (Nat.eqb c c0 && on_accept k && (n =? count s + 1)%Z) eqn:E; try discriminate.
+    injection H as <-. destruct ok; ffin.
+  - destruct (sp s) eqn:Esp; try discriminate. destruct (get s c) as [x|] eqn:Hg; try discriminate.
+    destruct (Nat.eqb c c0) eqn:E; try discriminate. injection H as <-. ffin.
+  - brk H. injection H as <-. ffin.
+  - destruct (sp s) eqn:Esp; try discriminate. destruct (get s c) as [x|] eqn:Hg; try discriminate.
+    destruct (Nat.eqb c c0 && negb (mu s)) eqn:E; try discriminate. injection H as <-. ffin.
+  - destruct (sp s) eqn:Esp; try discriminate.
+    + destruct (shut s || cancelled s) eqn:Esc.
+      * destruct (err_is_closed e && negb (lis_open s)) eqn:E; try discriminate. injection H as <-.
+        apply andb_prop in E as [E1 E2]. destruct e; try discriminate. ffin.
+      * destruct (err_is_other e); try discriminate. injection H as <-. apply orb_false_elim in Esc as [Es Ec].
+        constructor; unfold sd_good, sd_ran in *; cbn in *; intros; auto.
+        destruct (sd s) eqn:Esd; try discriminate; (assert (shut s = true) by (apply F2; discriminate); congruence).
+    + destruct (cancelled s && err_is_closed e) eqn:E; try discriminate. apply andb_prop in E as [E1 E2].
+      destruct e; try discriminate. injection H as <-. ffin.
+  - cs H. brk Hy; injection Hy as <-; ffin.
+  - cs H. brk Hy; injection Hy as <-; ffin.
+  - cs H. brk Hy; injection Hy as <-; ffin.
+  - cs H. brk Hy; injection Hy as <-; ffin.
+  - cs H. brk Hy; injection Hy as <-; ffin.
+  - cs H. brk Hy; injection Hy as <-; ffin.
+  - cs H. brk Hy; injection Hy as <-; ffin.
+  - destruct (get s c) as [x|] eqn:Hg; try discriminate. brk H; injection H as <-; ffin.
+  - destruct (get s c) as [x|] eqn:Hg; try discriminate. brk H; injection H as <-; ffin.
+  - cs H. brk Hy; injection Hy as <-; ffin.
+  - cs H. brk Hy; injection Hy as <-; ffin.
+  - destruct (mu s) eqn:Emu; try discriminate.
+    destruct (conn_step s c PExited _) as [s1|] eqn:E1; try discriminate. injection H as <-.
+    cs E1. injection Hy as <-. ffin.
+  - destruct (conn_step s c PUntracked _) as [s1|] eqn:E1; try discriminate.
+    cs E1. injection Hy as <-.
+    destruct (close_guard v k && negb (on_close k)); injection H as <-; ffin.
+  - brk H; injection H as <-; ffin.
+  - brk H; injection H as <-; ffin.
+  - destruct (sd s) eqn:Esd; try discriminate. destruct (get s c) as [x|] eqn:Hg; try discriminate.
+    destruct (mem_nat c todo && inmap x) eqn:E; try discriminate.
+    destruct (cst x) eqn:Ecst; injection H as <-; ffin.
+  - destruct (sd s) eqn:Esd; try discriminate. destruct (get s c) as [x|] eqn:Hg; try discriminate.
+    destruct (Nat.eqb c c0) eqn:E; try discriminate.
+    destruct (cst x) eqn:Ecst; injection H as <-; ffin.
+  - destruct (sd s) eqn:Esd; try discriminate. destruct (get s c) as [x|] eqn:Hg; try discriminate.
+    destruct (Nat.eqb c c0) eqn:E; try discriminate. injection H as <-; ffin.
+  - brk H; injection H as <-; ffin.
+  - brk H; injection H as <-; ffin.
+  - brk H; injection H as <-; ffin.
+  - brk H; injection H as <-; ffin.
+  - brk H; injection H as <-; ffin.
+  - destruct (cancelled s && published (sp s) && negb (returned (sp s)) && lis_open s) eqn:E; try discriminate.
+    injection H as <-. apply andb_prop in E as [E E4]. apply andb_prop in E as [E E3]. apply andb_prop in E as [E1 E2].
+    constructor; cbn; auto.
+Qed.
+
+(* ---------- a pass of Shutdown that has found everything idle has visited the whole map ---------- *)
+Definition cover (s : state) (t : list nat) (oc : option nat) : Prop :=
+  forall d x, get s d = Some x -> inmap x = true -> In d t \/ oc = Some d.
+Definition cinv3 (s : state) : Prop :=
+  match sd s with
+  | SdPass t true => cover s t None
+  | SdFailed c t true => cover s t (Some c)
+  | SdClosing c t true => cover s t (Some c)
+  | _ => True
+  end.
+
+Lemma inmap_ids_complete cs : forall i d x, nth_error cs d = Some x -> inmap x = true -> In (i + d) (inmap_ids cs i).
+Proof.
+  induction cs as [|h t IH]; intros i [|d] x H I; cbn in *; try discriminate.
+  - injection H as ->. rewrite I. left. lia.
+  - apply in_or_app. right. replace (i + S d) with (S i + d) by lia. eapply IH; eassumption.
+Qed.
+Lemma remove_nat_in c d t : In d t -> d <> c -> In d (remove_nat c t).
+Proof.
+  induction t as [|h t IH]; cbn; [tauto|]. intros [->|H] Hne.
+  - destruct (Nat.eqb c d) eqn:E; [apply Nat.eqb_eq in E; congruence|left; reflexivity].
+  - destruct (Nat.eqb c h); [auto|right; auto].
+Qed.
+
+Ltac t_cov Hcov Hm Hg :=
+  unfold cinv3, cover in *; cbn;
+  match goal with |- context [sd ?s] => destruct (sd s) eqn:Esd0 end; auto;
+  try (exfalso; cbn in Hm; congruence);
+  try match goal with |- match ?b with true => _ | false => _ end => destruct b end; auto;
+  intros d x' G I;
+  match type of Hg with get ?s ?c = Some ?x =>
+    destruct (Nat.eq_dec c d) as [->|Hne];
+    [ unfold get, put in G; cbn in G; rewrite (nth_upd_same _ _ _ _ Hg) in G; injection G as <-;
+      apply (Hcov d x Hg); crec x; unfold via_set in *; cbn in *;
+      repeat match goal with H : context [match ?v with ViaNone => _ | _ => _ end] |- _ => destruct v; cbn in * end;
+      congruence
+    | unfold get, put in G; cbn in G; rewrite nth_upd_other in G by assumption; exact (Hcov d x' G I) ]
+  end.
+Ltac t_same Hcov := unfold cinv3, cover, get in *; cbn; exact Hcov.
+
+Lemma cov_step k s l s' : inv k s -> cinv3 s -> step GuardNow k s l = Some s' -> cinv3 s'.
+Proof.
+  intros [Hc Hn Hf Hm Hcl Hfl Hsp] Hcov H. unfold step in H. rewrite Hc in H.
+  destruct l.
+  - brk H; injection H as <-; t_same Hcov.
+  - brk H; injection H as <-; t_same Hcov.
+  - destruct (sp s) eqn:Esp; try discriminate.
+    destruct (lis_open s && Nat.eqb c (length (conns s))) eqn:Heqb; try discriminate. injection H as <-.
+    assert (A : forall t oc, cover s t oc -> cover (s_conns (conns s ++ [new_conn]) s) t oc).
+    { intros t oc C d x G I. apply get_app_new in G as [G|[_ ->]]; [eapply C; eassumption|discriminate]. }
+    unfold cinv3 in *. destruct (on_accept k); cbn;
+      (destruct (sd s) as [|t0 a0|c1 t0 a0|c1 t0 a0| |e0]; auto; destruct a0; auto; apply A; assumption).
+  - destruct (sp s) eqn:Esp; try discriminate. destruct (get s c) as [x|] eqn:Hg; try discriminate.
+    destruct (Nat.eqb c c0 && on_accept k && (n =? count s + 1)%Z) eqn:E; try discriminate.
+    injection H as <-. destruct ok; t_cov Hcov Hm Hg.
+  - destruct (sp s) eqn:Esp; try discriminate. destruct (get s c) as [x|] eqn:Hg; try discriminate.
+    destruct (Nat.eqb c c0) eqn:E; try discriminate. injection H as <-. t_cov Hcov Hm Hg.
+  - brk H. injection H as <-. t_same Hcov.
+  - destruct (sp s) eqn:Esp; try discriminate. destruct (get s c) as [x|] eqn:Hg; try discriminate.
+    destruct (Nat.eqb c c0 && negb (mu s)) eqn:E; try discriminate. apply andb_prop in E as [E E2].
+    destruct (mu s) eqn:Emu; try discriminate. injection H as <-. t_cov Hcov Hm Hg.
+  - brk H; injection H as <-; t_same Hcov.
+  - cs H. brk Hy; injection Hy as <-; t_cov Hcov Hm Hg.
+  - cs H. brk Hy; injection Hy as <-; t_cov Hcov Hm Hg.
+  - cs H. brk Hy; injection Hy as <-; t_cov Hcov Hm Hg.
+  - cs H. brk Hy; injection Hy as <-; t_cov Hcov Hm Hg.
+  - cs H. brk Hy; injection Hy as <-; t_cov Hcov Hm Hg.
+  - cs H. brk Hy; injection Hy as <-; t_cov Hcov Hm Hg.
+  - cs H. brk Hy; injection Hy as <-; t_cov Hcov Hm Hg.
+  - destruct (get s c) as [x|] eqn:Hg; try discriminate. brk H; injection H as <-; t_cov Hcov Hm Hg.
+  - destruct (get s c) as [x|] eqn:Hg; try discriminate. brk H; injection H as <-; t_cov Hcov Hm Hg.
+  - cs H. brk Hy; injection Hy as <-; t_cov Hcov Hm Hg.
+  - cs H. brk Hy; injection Hy as <-; t_cov Hcov Hm Hg.
+  - destruct (mu s) eqn:Emu; try discriminate.
+    destruct (conn_step s c PExited _) as [s1|] eqn:E1; try discriminate. injection H as <-.
+    cs E1. injection Hy as <-. t_cov Hcov Hm Hg.
+  - destruct (conn_step s c PUntracked _) as [s1|] eqn:E1; try discriminate.
+    cs E1. injection Hy as <-. unfold close_guard in *.
+    destruct (on_close k) eqn:Eoc; cbn in H; injection H as <-; t_cov Hcov Hm Hg.
+  - brk H; injection H as <-; t_same Hcov.
+  - (* LSdBegin *) destruct (sd s) eqn:Esd; try discriminate;
+      (destruct (sd_req s && negb (mu s)); try discriminate; destruct (lis_set s); injection H as <-;
+       unfold cinv3; cbn; auto; intros d x G I; left; apply (inmap_ids_complete _ 0 d x G I)).
+  - (* LSdCas *)
+    destruct (sd s) eqn:Esd; try discriminate. destruct (get s c) as [x|] eqn:Hg; try discriminate.
+    destruct (mem_nat c todo && inmap x) eqn:E; try discriminate.
+    unfold cinv3 in *. rewrite Esd in Hcov.
+    destruct (cst x) eqn:Ecst; injection H as <-; cbn; destruct allidle; auto; intros d x' G I.
+    + unfold get, put in G; cbn in G. destruct (Nat.eq_dec c d) as [->|Hne]; [right; reflexivity|].
+      rewrite nth_upd_other in G by assumption. destruct (Hcov d x' G I) as [Hi|Hi]; [|discriminate].
+      left. apply remove_nat_in; auto.
+    + destruct (Nat.eq_dec c d) as [->|Hne]; [right; reflexivity|].
+      destruct (Hcov d x' G I) as [Hi|Hi]; [|discriminate]. left. apply remove_nat_in; auto.
+    + destruct (Nat.eq_dec c d) as [->|Hne]; [right; reflexivity|].
+      destruct (Hcov d x' G I) as [Hi|Hi]; [|discriminate]. left. apply remove_nat_in; auto.
+  - (* LSdLoad *)
+    destruct (sd s) eqn:Esd; try discriminate. destruct (get s c) as [x|] eqn:Hg; try discriminate.
+    destruct (Nat.eqb c c0) eqn:E; try discriminate. apply Nat.eqb_eq in E. subst c0.
+    unfold cinv3 in *. rewrite Esd in Hcov.
+    destruct (cst x) eqn:Ecst; injection H as <-; cbn; auto; destruct allidle; auto; intros d x' G I.
+    + unfold get, put in G; cbn in G. destruct (Nat.eq_dec c d) as [->|Hne]; [right; reflexivity|].
+      rewrite nth_upd_other in G by assumption. exact (Hcov d x' G I).
+    + unfold get, put, via_set in G. destruct (Nat.eq_dec c d) as [->|Hne]; [right; reflexivity|].
+      destruct (sd_via x); cbn in G; try rewrite nth_upd_other in G by assumption; exact (Hcov d x' G I).
+  - (* LSdClose *)
+    destruct (sd s) eqn:Esd; try discriminate. destruct (get s c) as [x|] eqn:Hg; try discriminate.
+    destruct (Nat.eqb c c0) eqn:E; try discriminate. apply Nat.eqb_eq in E. subst c0. injection H as <-.
+    unfold cinv3 in *. rewrite Esd in Hcov. cbn. destruct allidle; auto. intros d x' G I.
+    unfold get, put in G; cbn in G. destruct (Nat.eq_dec c d) as [->|Hne].
+    + rewrite (nth_upd_same _ _ _ _ Hg) in G. injection G as <-. crec x; cbn in I; discriminate.
+    + rewrite nth_upd_other in G by assumption. destruct (Hcov d x' G I) as [Hi|Hi]; [left; assumption|congruence].
+  - brk H; injection H as <-; unfold cinv3; cbn; exact I.
+  - brk H; injection H as <-; unfold cinv3; cbn; intros d x G I; left; apply (inmap_ids_complete _ 0 d x G I).
+  - brk H; injection H as <-; unfold cinv3; cbn; exact I.
+  - brk H; injection H as <-; unfold cinv3; cbn; exact I.
+  - brk H; injection H as <-; t_same Hcov.
+  - brk H; injection H as <-; t_same Hcov.
+Qed.
+
+Lemma finv_init k : finv k init.
+Proof. constructor; cbn; intros; try discriminate; try congruence; auto. Qed.
+Theorem reach_finv v k s : reach v k s -> finv k s.
+Proof. induction 1 as [|s l s' _ IH H]; [apply finv_init|eapply finv_step; eassumption]. Qed.
+Theorem reach_cinv3 k s : reach GuardNow k s -> cinv3 s.
+Proof.
+  induction 1 as [|s l s' R IH H]; [exact I|]. eapply cov_step; [apply reach_inv; exact R|exact IH|exact H].
+Qed.
+
+(* ---------- (e) graceful shutdown ---------- *)
+(* at the moment Shutdown returns nil *)
+Theorem shutdown_return_nil k s s' : reach GuardNow k s -> step GuardNow k s LSdReturn = Some s' ->
+  sd s' = SdReturned ENil ->
+  lis_open s' = false /\ shut s' = true /\ mu s' = false /\
+  (forall e, sp s' = SReturned e -> e = EClosed) /\
+  (forall c x, get s' c = Some x -> inmap x = false /\ (is_live (ph x) = true -> sock x = false)).
+Proof.
+  intros R H E.
+  assert (R' : reach GuardNow k s') by (eapply reach_step; eassumption).
+  pose proof (reach_finv _ _ _ R') as [F1 F2 F3 F4 F5 F6].
+  pose proof (reach_cinv3 _ _ R) as C3. pose proof (reach_inv _ _ R') as I'.
+  unfold sd_good, sd_ran in *. rewrite E in *.
+  split; [apply F4; reflexivity|]. split; [apply F2; discriminate|].
+  split; [rewrite (i_mu _ _ I'), E; reflexivity|]. split; [apply F3; reflexivity|].
+  assert (Hno : forall c x, get s' c = Some x -> inmap x = false).
+  { unfold step in H. destruct (crashed s); [discriminate|]. destruct (sd s) as [|t a|? ? ?|? ? ?| |?] eqn:Esd; try discriminate.
+    destruct t; try discriminate. destruct a; try discriminate. injection H as <-.
+    unfold cinv3 in C3. rewrite Esd in C3. intros c x G. destruct (inmap x) eqn:Ei; [|reflexivity].
+    destruct (C3 c x G Ei) as [[]|Hx]; discriminate. }
+  intros c x G. split; [eapply Hno; eassumption|]. intros L.
+  apply (ci_del _ _ (reach_get_cinv _ _ _ _ R' G) L). eapply Hno; eassumption.
+Qed.
+
+(* after it: the listener stays closed, so Accept fails and the only way out of serve's loop is
+   ErrServerClosed; a ServeReturn step can carry no other error *)
+Lemma serve_return_closed v k s e s' : shut s = true \/ cancelled s = true ->
+  step v k s (LServeReturn e) = Some s' -> e = EClosed.
+Proof.
+  intros Hsc H. unfold step in H. destruct (crashed s); [discriminate|].
+  destruct (sp s); try discriminate.
+  - assert (E : shut s || cancelled s = true) by (destruct Hsc as [-> | ->]; [reflexivity|apply orb_true_r]).
+    rewrite E in H. destruct e; cbn in H; try discriminate. reflexivity.
+  - destruct e; try rewrite andb_false_r in H; try discriminate. reflexivity.
+Qed.
+Lemma accept_needs_open_listener v k s c s' : step v k s (LAccept c) = Some s' -> lis_open s = true.
+Proof.
+  unfold step. destruct (crashed s); [discriminate|]. destruct (sp s); try discriminate.
+  destruct (lis_open s); [reflexivity|discriminate].
+Qed.
+Theorem after_good_shutdown v k s : reach v k s ->
+  (match sd s with SdReturned ENil => True | _ => False end) ->
+  lis_open s = false /\ shut s = true /\ (forall e, sp s = SReturned e -> e = EClosed) /\
+  (forall c s', step v k s (LAccept c) = Some s' -> False) /\
+  (forall e s', step v k s (LServeReturn e) = Some s' -> e = EClosed).
+Proof.
+  intros R E. pose proof (reach_finv _ _ _ R) as [F1 F2 F3 F4 F5 F6]. unfold sd_good, sd_ran in *.
+  destruct (sd s) as [| | | | |[]] eqn:Esd; try contradiction.
+  assert (Hl : lis_open s = false) by (apply F4; reflexivity).
+  assert (Hs : shut s = true) by (apply F2; discriminate).
+  split; [exact Hl|]. split; [exact Hs|]. split; [apply F3; reflexivity|]. split.
+  - intros c s' H. apply accept_needs_open_listener in H. congruence.
+  - intros e s' H. eapply serve_return_closed; [left; exact Hs|exact H].
+Qed.
+
+(* replies: whatever Shutdown closed after a successful CAS (or after finding the goroutine gone) owes
+   nothing and loses nothing; a lost reply can only come from the fall-through after a failed CAS
+   that then loaded `idle` *)
+Theorem shutdown_no_lost_reply k s : reach GuardNow k s ->
+  forall c x, get s c = Some x ->
+    (lost x <> 0 -> sd_via x = ViaLoadIdle) /\
+    (sd_via x = ViaCas -> owed x = [] /\ cst x = CClosed) /\
+    (sd_via x = ViaLoadClosed -> cst x = CClosed) /\
+    (handling_ph (ph x) = true -> sock x = false -> sd_via x = ViaLoadIdle).
+Proof.
+  intros R c x G. pose proof (reach_get_cinv _ _ _ _ R G) as [H1 H2 H3 H4 H5 H6 H7 H8 H9 H10 H11 H12 H13 H14].
+  split; [exact H9|]. split; [|split].
+  - intros E. split; [auto|]. destruct H7 as [A|A]; [congruence|exact A|congruence].
+  - intros E. destruct H7 as [A|A]; [congruence|exact A|congruence].
+  - intros Hh Hs. assert (Hp : pre_exit (ph x) = true) by (destruct (ph x); try discriminate; reflexivity).
+    specialize (H8 Hs Hp). destruct (H7 H8) as [A|A]; [|exact A]. rewrite (H3 Hh) in A. discriminate.
+Qed.
+
+(* ---------- (f) bounded return of serve once the listener is closed ---------- *)
+Definition serve_left (p : spc) : nat :=
+  match p with
+  | SStart => 3 | SCalled => 2 | SLoop => 1 | SAccepted _ => 4 | SRejected _ => 2 | SPassed _ => 3 | STrack _ => 2
+  | SReturned _ => 0
+  end.
+Definition is_serve (l : label) : bool := match label_gor l with GServe => true | _ => false end.
+Fixpoint count_serve (ls : list label) : nat :=
+  match ls with [] => 0 | l :: t => (if is_serve l then 1 else 0) + count_serve t end.
+
+Lemma serve_step_measure v k s l s' : lis_open s = false -> step v k s l = Some s' ->
+  lis_open s' = false /\
+  (if is_serve l then serve_left (sp s') < serve_left (sp s) else sp s' = sp s).
+Proof.
+  intros Hl H. unfold step in H. destruct (crashed s); [discriminate|].
+  destruct l; unfold is_serve; cbn [label_gor].
+  - brk H; injection H as <-; cbn; rewrite ?Heqs0; cbn; auto.
+  - brk H; injection H as <-; cbn; rewrite ?Heqs0; cbn; auto.
+  - rewrite Hl in H. destruct (sp s); discriminate.
+  - destruct (sp s) eqn:Esp; try discriminate. destruct (get s c) as [x|] eqn:Hg; try discriminate.
+    destruct (Nat.eqb c c0 && on_accept k && (n =? count s + 1)%Z) eqn:E; try discriminate.
+    injection H as <-. destruct ok; cbn; auto.
+  - destruct (sp s) eqn:Esp; try discriminate. destruct (get s c) as [x|] eqn:Hg; try discriminate.
+    destruct (Nat.eqb c c0) eqn:E; try discriminate. injection H as <-. cbn; auto.
+  - brk H. injection H as <-. cbn; rewrite ?Heqs0; cbn; auto.
+  - destruct (sp s) eqn:Esp; try discriminate. destruct (get s c) as [x|] eqn:Hg; try discriminate.
+    destruct (Nat.eqb c c0 && negb (mu s)) eqn:E; try discriminate. injection H as <-. cbn; auto.
+  - brk H; injection H as <-; cbn; rewrite ?Heqs0; cbn; auto.
+  - cs H. brk Hy; injection Hy as <-; cbn; auto.
+  - cs H. brk Hy; injection Hy as <-; cbn; auto.
+  - cs H. brk Hy; injection Hy as <-; cbn; auto.
+  - cs H. brk Hy; injection Hy as <-; cbn; auto.
+  - cs H. brk Hy; injection Hy as <-; cbn; auto.
+  - cs H. brk Hy; injection Hy as <-; cbn; auto.
+  - cs H. brk Hy; injection Hy as <-; cbn; auto.
+  - destruct (get s c) as [x|] eqn:Hg; try discriminate. brk H; injection H as <-; cbn; auto.
+  - destruct (get s c) as [x|] eqn:Hg; try discriminate. brk H; injection H as <-; cbn; auto.
+  - cs H. brk Hy; injection Hy as <-; cbn; auto.
+  - cs H. brk Hy; injection Hy as <-; cbn; auto.
+  - destruct (mu s) eqn:Emu; try discriminate.
+    destruct (conn_step s c PExited _) as [s1|] eqn:E1; try discriminate. injection H as <-.
+    cs E1. injection Hy as <-. cbn; auto.
+  - destruct (conn_step s c PUntracked _) as [s1|] eqn:E1; try discriminate.
+    cs E1. injection Hy as <-.
+    destruct (close_guard v k && negb (on_close k)); injection H as <-; cbn; auto.
+  - brk H; injection H as <-; cbn; auto.
+  - brk H; injection H as <-; cbn; auto.
+  - destruct (sd s) eqn:Esd; try discriminate. destruct (get s c) as [x|] eqn:Hg; try discriminate.
+    destruct (mem_nat c todo && inmap x) eqn:E; try discriminate.
+    destruct (cst x) eqn:Ecst; injection H as <-; cbn; auto.
+  - destruct (sd s) eqn:Esd; try discriminate. destruct (get s c) as [x|] eqn:Hg; try discriminate.
+    destruct (Nat.eqb c c0) eqn:E; try discriminate.
+    destruct (cst x) eqn:Ecst; injection H as <-; cbn; auto.
+  - destruct (sd s) eqn:Esd; try discriminate. destruct (get s c) as [x|] eqn:Hg; try discriminate.
+    destruct (Nat.eqb c c0) eqn:E; try discriminate. injection H as <-; cbn; auto.
+  - brk H; injection H as <-; cbn; auto.
+  - brk H; injection H as <-; cbn; auto.
+  - brk H; injection H as <-; cbn; auto.
+  - brk H; injection H as <-; cbn; auto.
+  - brk H; injection H as <-; cbn; auto.
+  - brk H; injection H as <-; cbn; auto.
+Qed.
+
+Theorem serve_bounded v k : forall ls s s', lis_open s = false -> run v k s ls = Some s' ->
+  count_serve ls + serve_left (sp s') <= serve_left (sp s) /\ lis_open s' = false.
+Proof.
+  induction ls as [|l t IH]; intros s s' Hl H; cbn in H.
+  - injection H as <-. cbn. split; [lia|exact Hl].
+  - destruct (step v k s l) as [s1|] eqn:E; [|discriminate].
+    destruct (serve_step_measure _ _ _ _ _ Hl E) as [Hl1 Hm]. destruct (IH _ _ Hl1 H) as [Hc Hl']. split; [|exact Hl'].
+    cbn [count_serve]. destruct (is_serve l); [lia|rewrite Hm in Hc; lia].
+Qed.
+Corollary serve_bounded_4 v k ls s s' : lis_open s = false -> run v k s ls = Some s' -> count_serve ls <= 4.
+Proof.
+  intros Hl H. destruct (serve_bounded v k ls s s' Hl H) as [Hc _].
+  assert (serve_left (sp s) <= 4) by (destruct (sp s); cbn; lia). lia.
+Qed.
+
+(* cancelling makes the listener-closing step available, and it stays available until taken *)
+Lemma cancel_enables_close v k s : crashed s = false -> cancelled s = true -> published (sp s) = true ->
+  returned (sp s) = false -> lis_open s = true -> step v k s LAfterClose = Some (s_lis_open false s).
+Proof. intros Hc H1 H2 H3 H4. unfold step. rewrite Hc, H1, H2, H3, H4. reflexivity. Qed.
+
+(* progress: with the listener closed after a cancel/shutdown serve always has a next step unless
+   Shutdown holds the mutex serve needs *)
+Theorem serve_progress k s : reach GuardNow k s -> lis_open s = false -> shut s = true \/ cancelled s = true ->
+  returned (sp s) = false -> mu s = false ->
+  exists l s', is_serve l = true /\ step GuardNow k s l = Some s'.
+Proof.
+  intros R Hl Hsc Hr Hmu. pose proof (reach_inv _ _ R) as [Hc Hn Hf Hm Hcl Hfl Hsp].
+  pose proof (reach_finv _ _ _ R) as [F1 F2 F3 F4 F5 F6].
+  assert (E : shut s || cancelled s = true) by (destruct Hsc as [-> | ->]; [reflexivity|apply orb_true_r]).
+  destruct (sp s) eqn:Esp; try discriminate.
+  - exists LServeCb. eexists. split; [reflexivity|]. unfold step. rewrite Hc, Esp. reflexivity.
+  - exists LPublish. eexists. split; [reflexivity|]. unfold step. rewrite Hc, Esp, Hmu. reflexivity.
+  - exists (LServeReturn EClosed). eexists. split; [reflexivity|]. unfold step. rewrite Hc, Esp, E, Hl. reflexivity.
+  - destruct (Hsp c eq_refl) as [x [G P]]. exists (LAcceptCb c (count s + 1) true). eexists. split; [reflexivity|].
+    unfold step. rewrite Hc, Esp, G, Nat.eqb_refl, Z.eqb_refl. rewrite (F6 eq_refl). reflexivity.
+  - destruct (Hsp c eq_refl) as [x [G P]]. exists (LRejectClose c). eexists. split; [reflexivity|].
+    unfold step. rewrite Hc, Esp, G, Nat.eqb_refl. reflexivity.
+  - destruct (cancelled s) eqn:Ec.
+    + exists (LServeReturn EClosed). eexists. split; [reflexivity|]. unfold step. rewrite Hc, Esp, Ec. reflexivity.
+    + exists (LCtxPass c). eexists. split; [reflexivity|]. unfold step. rewrite Hc, Esp, Ec, Nat.eqb_refl. reflexivity.
+  - destruct (Hsp c eq_refl) as [x [G P]]. exists (LTrack c). eexists. split; [reflexivity|].
+    unfold step. rewrite Hc, Esp, G, Nat.eqb_refl, Hmu. reflexivity.
+Qed.
+
+(* ---------- witnesses (concrete runs; replayable on the real code, see the harness scripts) ---------- *)
+Definition cfg_accept_only : cfg := {| on_serve := false; on_error := false; on_accept := true; on_close := false |}.
+Definition cfg_close_only : cfg := {| on_serve := false; on_error := false; on_accept := false; on_close := true |}.
+Definition cfg_none : cfg := {| on_serve := false; on_error := false; on_accept := false; on_close := false |}.
+Definition cfg_all : cfg := {| on_serve := true; on_error := true; on_accept := true; on_close := true |}.
+
+Lemma run_reach v k ls s : run v k init ls = Some s -> reach v k s.
+Proof. intros H. eapply reach_run; [apply reach_init|exact H]. Qed.
+
+(* the guard before fix 7acbe3f: accept-only configuration calls a nil OnCloseConnFunc *)
+Definition old_guard_crash_run : list label :=
+  [LServeCb; LPublish; LAccept 0; LAcceptCb 0 1 true; LCtxPass 0; LTrack 0; LConnRead 0 REof; LConnLeave 0;
+   LConnExit 0; LUntrack 0; LCloseCb 0].
+Lemma old_guard_crashes : exists s, reach GuardOld cfg_accept_only s /\ crashed s = true.
+Proof.
+  destruct (run GuardOld cfg_accept_only init old_guard_crash_run) as [s|] eqn:E; [|vm_compute in E; discriminate].
+  exists s. split; [eapply run_reach; exact E|]. vm_compute in E. injection E as <-. reflexivity.
+Qed.
+(* ... and never runs the close callback in the close-only configuration *)
+Definition close_only_run : list label :=
+  [LServeCb; LPublish; LAccept 0; LCtxPass 0; LTrack 0; LConnRead 0 REof; LConnLeave 0; LConnExit 0; LUntrack 0; LCloseCb 0].
+Lemma old_guard_skips_close_cb : exists s x, reach GuardOld cfg_close_only s /\ get s 0 = Some x /\ ph x = PDone /\ close_cb x = 0.
+Proof.
+  destruct (run GuardOld cfg_close_only init close_only_run) as [s|] eqn:E; [|vm_compute in E; discriminate].
+  exists s. vm_compute in E. injection E as <-. eexists. split; [apply (run_reach _ _ close_only_run); reflexivity|].
+  split; [reflexivity|]. split; reflexivity.
+Qed.
+(* the same runs under the current guard *)
+Lemma now_guard_same_runs :
+  (exists s, run GuardNow cfg_accept_only init old_guard_crash_run = Some s /\ crashed s = false) /\
+  (exists s x, run GuardNow cfg_close_only init close_only_run = Some s /\ get s 0 = Some x /\ close_cb x = 1).
+Proof. split; [eexists; split; [vm_compute; reflexivity|reflexivity]|eexists; eexists; split; [vm_compute; reflexivity|split; reflexivity]]. Qed.
+
+(* residual window in Shutdown: CAS(idle->closed) fails because a request is being handled, the reply is
+   written and the state stored back to idle, then Load() sees `idle` (not `handling`) and the
+   connection is closed without a CAS -- while the next request's handler has already started *)
+Definition load_race_run : list label :=
+  [LServeCb; LPublish; LAccept 0; LCtxPass 0; LTrack 0;
+   LConnRead 0 RData; LHandleStart 0; LHandlerStart 0; LHandlerEnd 0 true;
+   LSdCall; LSdBegin; LSdCas 0;
+   LReplyWrite 0 true; LHandleEnd 0;
+   LSdLoad 0;
+   LConnRead 0 RData; LHandleStart 0; LHandlerStart 0;
+   LSdClose 0;
+   LHandlerEnd 0 true; LReplyWrite 0 false; LSdReturn].
+Lemma shutdown_load_race_loses_reply :
+  exists s x, reach GuardNow cfg_none s /\ sd s = SdReturned ENil /\ get s 0 = Some x /\
+              lost x = 1 /\ started x = 2 /\ replied x = 1 /\ sd_via x = ViaLoadIdle.
+Proof.
+  destruct (run GuardNow cfg_none init load_race_run) as [s|] eqn:E; [|vm_compute in E; discriminate].
+  exists s. vm_compute in E. injection E as <-. eexists. split; [apply (run_reach _ _ load_race_run); reflexivity|].
+  repeat split; reflexivity.
+Qed.
+
+(* a connection that Accept returned before Shutdown closed the listener, tracked after Shutdown
+   returned nil: it is served although the shutdown "succeeded" *)
+Definition late_track_run : list label :=
+  [LServeCb; LPublish; LAccept 0; LSdCall; LSdBegin; LSdReturn; LCtxPass 0; LTrack 0;
+   LConnRead 0 RData; LHandleStart 0; LHandlerStart 0; LHandlerEnd 0 true; LReplyWrite 0 true; LHandleEnd 0].
+Lemma late_track_survives_shutdown :
+  exists s x, reach GuardNow cfg_none s /\ sd s = SdReturned ENil /\ get s 0 = Some x /\
+              ph x = PIdle /\ sock x = true /\ inmap x = true /\ replied x = 1.
+Proof.
+  destruct (run GuardNow cfg_none init late_track_run) as [s|] eqn:E; [|vm_compute in E; discriminate].
+  exists s. vm_compute in E. injection E as <-. eexists. split; [apply (run_reach _ _ late_track_run); reflexivity|].
+  repeat split; reflexivity.
+Qed.
+
+(* a connection accepted while the context gets cancelled is dropped by serve: neither closed nor
+   tracked nor reported to the close callback, and no step of the LTS ever touches it again *)
+Definition accept_cancel_run : list label :=
+  [LServeCb; LPublish; LAccept 0; LAcceptCb 0 1 true; LCancel; LServeReturn EClosed].
+Lemma accept_then_cancel_leaks :
+  exists s x, reach GuardNow cfg_all s /\ sp s = SReturned EClosed /\ get s 0 = Some x /\ ph x = PAccepted /\
+              sock x = true /\ close_cb x = 0 /\
+              (forall l, label_gor l = GConn 0 -> step GuardNow cfg_all s l = None) /\
+              (forall l, label_gor l = GServe -> step GuardNow cfg_all s l = None).
+Proof.
+  destruct (run GuardNow cfg_all init accept_cancel_run) as [s|] eqn:E; [|vm_compute in E; discriminate].
+  exists s. vm_compute in E. injection E as <-. eexists. split; [apply (run_reach _ _ accept_cancel_run); reflexivity|].
+  split; [reflexivity|]. split; [reflexivity|]. split; [reflexivity|]. split; [reflexivity|]. split; [reflexivity|].
+  split; intros l Hl; destruct l; cbn in Hl; try discriminate; try (injection Hl as ->); try reflexivity;
+    try (destruct r; reflexivity); try (destruct ok; reflexivity).
+Qed.
+
+(* Shutdown before serve has published the listener dereferences a nil interface *)
+Lemma shutdown_before_serve_panics :
+  exists s, run GuardNow cfg_none init [LSdCall; LSdBegin] = Some s /\ sd s = SdReturned EPanic.
+Proof. eexists. split; [vm_compute; reflexivity|reflexivity]. Qed.
+
+(* non-vacuity: accept, track, read, handle, reply, shutdown while idle -- reaches the hypotheses of (e),
+   and the connection is closed by a successful CAS with nothing owed *)
+Definition happy_run : list label :=
+  [LServeCb; LPublish; LAccept 0; LAcceptCb 0 1 true; LCtxPass 0; LTrack 0;
+   LConnRead 0 RData; LHandleStart 0; LHandlerStart 0; LHandlerEnd 0 true; LReplyWrite 0 true; LHandleEnd 0;
+   LSdCall; LSdBegin; LSdCas 0; LSdClose 0].
+Lemma happy_run_example :
+  exists s s' x, run GuardNow cfg_all init happy_run = Some s /\ step GuardNow cfg_all s LSdReturn = Some s' /\
+                 sd s' = SdReturned ENil /\ get s' 0 = Some x /\ sd_via x = ViaCas /\ replied x = 1 /\ owed x = [] /\
+                 sock x = false /\ acc_arg x = Some 1%Z /\
+                 step GuardNow cfg_all s' (LServeReturn EClosed) <> None.
+Proof.
+  eexists. eexists. eexists. split; [vm_compute; reflexivity|]. split; [vm_compute; reflexivity|].
+  repeat split; try reflexivity. vm_compute. discriminate.
+Qed.
+(* ... and of (f): cancel, the AfterFunc goroutine closes the listener, serve returns ErrServerClosed *)
+Lemma cancel_example :
+  exists s, run GuardNow cfg_all init [LServeCb; LPublish; LAccept 0; LAcceptCb 0 1 false; LCancel; LAfterClose] = Some s /\
+            cancelled s = true /\ lis_open s = false /\
+            run GuardNow cfg_all s [LRejectClose 0; LServeReturn EClosed] <> None.
+Proof. eexists. split; [vm_compute; reflexivity|]. repeat split; try reflexivity. vm_compute. discriminate. Qed.
